@@ -395,4 +395,140 @@ theorem rename_eq_rename (f1 f2 : Nat → Nat) (L2 : List Nat) :
           simp only
           rw [hh, hf j, getD_indexIn L2 j hj]
 
+/-! ## sorting by a layout-independent key -/
+
+section keyed
+variable {α : Type} (key : α → Nat)
+
+theorem ins_perm (x : α) : ∀ l : List α, (ins key x l).Perm (x :: l) := by
+  intro l
+  induction l with
+  | nil => exact List.Perm.refl _
+  | cons y t ih =>
+    simp only [ins]
+    split
+    · exact List.Perm.refl _
+    · exact (List.Perm.cons y ih).trans (List.Perm.swap x y t)
+
+theorem ins_sorted (x : α) : ∀ l : List α, l.Pairwise (fun a b => key a ≤ key b) →
+    (ins key x l).Pairwise (fun a b => key a ≤ key b) := by
+  intro l
+  induction l with
+  | nil => intro _; simp [ins]
+  | cons y t ih =>
+    intro h
+    simp only [ins]
+    have hy := (List.pairwise_cons.1 h).1
+    have ht := (List.pairwise_cons.1 h).2
+    split
+    · rename_i hlt
+      refine List.pairwise_cons.2 ⟨?_, h⟩
+      intro z hz
+      rcases List.mem_cons.1 hz with rfl | hz
+      · omega
+      · have := hy z hz; omega
+    · rename_i hge
+      refine List.pairwise_cons.2 ⟨?_, ih ht⟩
+      intro z hz
+      rcases List.mem_cons.1 ((ins_perm key x t).subset hz) with rfl | hz
+      · omega
+      · exact hy z hz
+
+theorem foldl_ins_perm : ∀ (l acc : List α), (l.foldl (fun acc x => ins key x acc) acc).Perm (acc ++ l) := by
+  intro l
+  induction l with
+  | nil => intro acc; simp
+  | cons x t ih =>
+    intro acc
+    simp only [List.foldl_cons]
+    refine (ih _).trans ?_
+    refine ((ins_perm key x acc).append_right t).trans ?_
+    simpa using (List.perm_middle (a := x) (l₁ := acc) (l₂ := t)).symm
+
+theorem foldl_ins_sorted : ∀ (l acc : List α), acc.Pairwise (fun a b => key a ≤ key b) →
+    (l.foldl (fun acc x => ins key x acc) acc).Pairwise (fun a b => key a ≤ key b) := by
+  intro l
+  induction l with
+  | nil => intro acc h; exact h
+  | cons x t ih => intro acc h; exact ih _ (ins_sorted key x acc h)
+
+theorem isortBy_perm (l : List α) : (isortBy key l).Perm l := by
+  simpa [isortBy] using foldl_ins_perm key l []
+
+theorem isortBy_sorted (l : List α) : (isortBy key l).Pairwise (fun a b => key a ≤ key b) :=
+  foldl_ins_sorted key l [] List.Pairwise.nil
+
+theorem isortBy_strict (l : List α) (hnd : (l.map key).Nodup) : (isortBy key l).Pairwise (fun a b => key a < key b) := by
+  have hnd' : ((isortBy key l).map key).Nodup := ((isortBy_perm key l).map key).nodup_iff.2 hnd
+  have hne : (isortBy key l).Pairwise (fun a b => key a ≠ key b) := by
+    rw [List.Nodup, List.pairwise_map] at hnd'
+    exact hnd'
+  refine ((isortBy_sorted key l).and hne).imp ?_
+  intro a b h
+  omega
+
+/-- inserting into a sorted list puts the element behind every element with the same key -/
+theorem filter_ins (x : α) (k : Nat) : ∀ l : List α, l.Pairwise (fun a b => key a ≤ key b) →
+    (ins key x l).filter (fun y => key y == k) =
+      l.filter (fun y => key y == k) ++ (if key x == k then [x] else []) := by
+  intro l
+  induction l with
+  | nil => intro _; by_cases hk : key x = k <;> simp [ins, List.filter, hk]
+  | cons y t ih =>
+    intro h
+    have hy := (List.pairwise_cons.1 h).1
+    have ht := (List.pairwise_cons.1 h).2
+    simp only [ins]
+    split
+    · rename_i hlt
+      by_cases hk : key x = k
+      · have hnone : (y :: t).filter (fun z => key z == k) = [] := by
+          apply List.filter_eq_nil_iff.2
+          intro z hz
+          rcases List.mem_cons.1 hz with rfl | hz
+          · simp; omega
+          · have := hy z hz; simp; omega
+        rw [List.filter_cons, hnone]
+        simp [hk]
+      · simp [List.filter_cons, hk]
+    · rw [List.filter_cons, List.filter_cons, ih ht]
+      split <;> simp
+
+theorem foldl_ins_filter (k : Nat) : ∀ (l acc : List α), acc.Pairwise (fun a b => key a ≤ key b) →
+    (l.foldl (fun acc x => ins key x acc) acc).filter (fun y => key y == k) =
+      acc.filter (fun y => key y == k) ++ l.filter (fun y => key y == k) := by
+  intro l
+  induction l with
+  | nil => intro acc _; simp
+  | cons x t ih =>
+    intro acc h
+    simp only [List.foldl_cons]
+    rw [ih _ (ins_sorted key x acc h), filter_ins key x k acc h, List.filter_cons]
+    split <;> simp
+
+theorem foldl_oset_eq (l : List α) : ∀ (acc : List α), ((acc ++ l).map key).Nodup →
+    l.foldl (fun acc x => osetInsert key x acc) acc = l.foldl (fun acc x => ins key x acc) acc := by
+  induction l with
+  | nil => intro _ _; rfl
+  | cons x t ih =>
+    intro acc h
+    simp only [List.foldl_cons]
+    have hx : acc.any (fun y => key y == key x) = false := by
+      apply Bool.eq_false_iff.2
+      intro hc
+      obtain ⟨y, hy, hk⟩ := List.any_eq_true.1 hc
+      simp only [List.map_append, List.map_cons] at h
+      have := (List.nodup_append.1 h).2.2 (key y) (List.mem_map.2 ⟨y, hy, rfl⟩) (key x) (by simp)
+      exact this (by simpa using hk)
+    have e : osetInsert key x acc = ins key x acc := by simp [osetInsert, hx]
+    rw [e]
+    apply ih
+    have hp : ((ins key x acc ++ t).map key).Perm ((acc ++ x :: t).map key) := by
+      apply List.Perm.map
+      refine ((ins_perm key x acc).append_right t).trans ?_
+      simpa using (List.perm_middle (a := x) (l₁ := acc) (l₂ := t)).symm
+    exact hp.nodup_iff.2 h
+
+end keyed
+
 end Cppcheck.Determinism
